@@ -287,15 +287,16 @@ func (w *TimingWheel) moveTask(task baseEntry) {
 		return
 	}
 
-	pos, circle := w.getPositionAndCircle(task.delay)
-	if pos > timer.pos {
-		timer.item.circle = circle
-		timer.item.diff = pos - timer.pos
-	} else if circle > 0 {
-		circle--
-		timer.item.circle = circle
-		timer.item.diff = w.numSlots + pos - timer.pos
+	steps := int(task.delay / w.interval)
+	// 任务所在槽位下一次被扫描距现在的 tick 数，取值 1..numSlots
+	ahead := (timer.pos-w.tickedPos+w.numSlots-1)%w.numSlots + 1
+	if steps >= ahead {
+		// 留在原槽位：先等 circle 圈，再顺延 diff 个槽位（diff < numSlots）
+		timer.item.circle = (steps - ahead) / w.numSlots
+		timer.item.diff = (steps - ahead) % w.numSlots
 	} else {
+		// 目标时刻早于原槽位的下一次扫描，只能立即换槽
+		pos, _ := w.getPositionAndCircle(task.delay)
 		timer.item.removed = true
 		newItem := &timingEntry{
 			baseEntry: task,
